@@ -136,6 +136,18 @@ def check(ctx):
                 ctx.violation("M1", f"{t}|{'>'.join(f1.path(t))}", r.where, f"at {d} in regular employment the gross wage reaches {t} without passing a min(wage, ceiling) rule: {' <- '.join(f1.path(t))}; the contribution is not constant above the assessment ceiling")
             elif len(ctx.samples) < 6:
                 ctx.sample({"target": t, "date": str(d), "regular: wage enters through": f1.path(t)})
+    from ._siblings import capped_multiplier_findings
+
+    ctx.rule("S-cap", "the regular and the transition-zone copy of a contribution formula scale a rate parameter by the identical capped expression (otherwise the two regimes do not meet at the zone boundary)")
+    seen = set()
+    for key, where, msg in capped_multiplier_findings(s.repo, active=lambda r: "social_insurance_contributions" in r.mod.rel):
+        if key == "__count__":
+            ctx.ob("S-cap", ok=True, distinct="groups", n=max(msg, 1))
+            continue
+        if key not in seen:
+            seen.add(key)
+            ctx.ob("S-cap", ok=False, distinct=key)
+            ctx.violation("S-cap", key, where, msg)
     ctx.extra_cov["dates"] = len(dates)
     ctx.floor("M0", 4 * 30)
     ctx.floor("M1", 4 * 30)
